@@ -523,7 +523,8 @@ def gen_scenarios(rng, tier):
                     c["up"] = []
                     if not c["down"]:
                         c["down"] = [5, 0, 1000]
-        scs.append({"id": "t%d-%dn-%s-%s" % (i, n, e, x), "nodes": n, "entry": e, "exit": x, "conns": conns})
+        scs.append({"id": "t%d-%dn-%s-%s" % (i, n, e, x), "nodes": n, "entry": e, "exit": x, "conns": conns,
+                    "echo_burst": 24 if (x in ("clientfwd", "agent") or i == 0) else 0})
     if tier != "quick":
         scs += slow_consumer_scenarios()
     return scs
@@ -553,6 +554,8 @@ def monitor_scenario(sc, so):
             return {"sig": "tunnel-zero-nil", "why": "%s: %d reads returned (0, nil)" % (where, co["zero_reads"])}
         if not co["eof_seen"]:
             return {"sig": "tunnel-eof", "why": "%s: the other end did not observe end-of-stream (%s)" % (where, co["eof_class"])}
+    if so.get("burst_bad"):
+        return {"sig": "tunnel-burst", "why": "scenario %s: %d clients connected at the same moment to an echoing upstream end: %s" % (sc["id"], so.get("burst_n", 0), "; ".join(so["burst_bad"]))}
     if len(so["conns"]) != len(sc["conns"]) or so.get("failed"):
         return {"sig": "tunnel-panic", "why": "scenario %s: %d of %d connections ran" % (sc["id"], len(so["conns"]), len(sc["conns"]))}
     if not so["released"]:
@@ -600,6 +603,7 @@ def run(ctx):
     # the thorough tier - while the writer has far more to send than the buffers hold; nothing may fail or be lost
     stall = {}
     stall_cases = [{"id": "stall-1500", "closer": 0, "dirs": [mkdir(1, [], [16]), mkdir(2, [], [16])], "stall_ms": 1500, "stall_total": 8 << 20}]
+    stall_cases.append({"id": "stall-close", "closer": 0, "dirs": [mkdir(1, [], [16]), mkdir(2, [], [16])], "stall_ms": 1, "stall_close": True, "stall_total": 64 << 20})
     if not quick:
         stall_cases.append({"id": "stall-11000", "closer": 0, "dirs": [mkdir(1, [], [16]), mkdir(2, [], [16])], "stall_ms": 11000, "stall_total": 16 << 20})
 
@@ -643,12 +647,18 @@ def run(ctx):
         why = None
         if o.get("panic"):
             why = "panic: " + o["panic"]
+        elif c.get("stall_close"):
+            if not st.get("close_returned"):
+                why = "Close() of the writing side did not return within 4 s while its Write was blocked by the stalled reader (%d bytes accepted so far)" % st.get("written", 0)
+            elif not st.get("write_released"):
+                why = "Close() returned after %d ms but the blocked Write was not released" % st.get("close_ms", -1)
         elif st.get("write_err"):
             why = "Write failed with %r after %d of %d bytes" % (st["write_err"], st.get("written", 0), c["stall_total"])
         elif st.get("read") != c["stall_total"] or not st.get("intact"):
             why = "%d of %d bytes arrived (%s), read ended with %r" % (st.get("read", 0), c["stall_total"], "intact" if st.get("intact") else "corrupted", st.get("read_err"))
         if why:
-            violations.append({"what": "C07 ws backpressure probe: the reader paused for %d ms while %d bytes were being written: %s" % (c["stall_ms"], c["stall_total"], why),
+            violations.append({"what": ("C07 ws backpressure probe: the reader never read; %s" % why) if c.get("stall_close") else
+                                       "C07 ws backpressure probe: the reader paused for %d ms while %d bytes were being written: %s" % (c["stall_ms"], c["stall_total"], why),
                                "found_input": True, "replay_obj": {"property": ID, "kind": "ws-stall", "signature": "stall", "why": why, "case": c, "observed": st}})
             break
 
